@@ -292,6 +292,8 @@ func init() {
 	})
 	registerSem(semSpec{
 		ID: "C01", Module: "GenRoutes", CheckLog: false,
+		Pre:      writeMachine,
+		Side:     map[string]func(*Ctx, json.RawMessage){"WriteOf": sideWriteOf},
 		Quick:    []semRun{{Cfg: "GenRoutes.quick.cfg", Workers: 8}},
 		Thorough: []semRun{{Cfg: "GenRoutes.thorough.cfg", Workers: 12}},
 		Rule:     "GenRoutes.tla: 5 payloads (specials, entity text, multi-byte, seeded PLAIN/MB classes) x 15 places the payload starts (string literal, back-quoted literal, context string, template.HTML, HTMLer, raw() of literal / variable, struct field (string / HTML), map element, []string / []interface{} element, helper result, whole []string / []interface{}) x sequences of <= MaxSteps of 10 plumbing steps (let, \"\" + x, x + \"\", array wrap + index, array wrap emitted whole, hash wrap + index, identity user function, emitting user function, Go identity helper, parentheses) x 14 sinks (top level, loop variable, if / else body, function body, function call in a loop, block helper with caller's / own context, contentFor+contentOf, contentOf data, contentOf default block, partial data, nested partial, layout yield). TLC checks TaintTheorem on the reference semantics (data never contributes a raw < > ' \"; trusted HTML appears verbatim exactly once). Real-code oracle: where the payload was data each of < > & ' \" must appear as an HTML entity (any spelling), where it was trusted HTML the bytes must appear verbatim exactly once, all surrounding literal text byte for byte. distinct_nontrivial = distinct (start, steps, sink) routes with a specified outcome.",
